@@ -336,3 +336,27 @@ Definition init (plans : list (nat -> behav)) : env := mkE DEFAULT false (mk_wor
 
 (* a finite plan: listed behaviours, Normal afterwards *)
 Definition plan_of (l : list behav) : nat -> behav := fun n => nth n l Normal.
+
+(* ---- _poll_pipe_envs with time made explicit ----
+   [ds]: for every pipe (in pipe order) the time, counted from the start of the wait, at which its answer becomes
+   readable (0 = already there). The real loop computes ONE deadline  end_time = now + timeout  and polls pipe i
+   with the remaining budget  delta = max(end_time - now, 0)  ([per_pipe = false]); the variant that hands the
+   full timeout to every pipe is [per_pipe = true]. Result: (all pipes readable?, time at which the loop returns). *)
+Fixpoint poll_loop (per_pipe : bool) (T now : nat) (ds : list nat) : bool * nat :=
+  match ds with
+  | [] => (true, now)
+  | d :: ds' =>
+      let delta := if per_pipe then T else T - now in
+      if Nat.leb d (now + delta) then poll_loop per_pipe T (Nat.max now d) ds'    (* poll returns as soon as readable *)
+      else (false, now + delta)                                                    (* poll(delta) expires *)
+  end.
+
+(* X_wait(timeout = T) when the workers that are still busy (Blocked) answer at the times [ds]: if the poll loop
+   succeeds every answer has arrived (the sleepers have woken up) and the call proceeds as without timeout;
+   otherwise Timeout, nothing consumed, state DEFAULT *)
+Definition wait_timed (per_pipe : bool) (k : kind) (T : nat) (ds : list nat) (e : env) : outcome * env :=
+  if closed e then (ClosedErr, e)
+  else if negb (pst_eqb (st e) (wst k)) then (NoAsyncCall, e)
+  else if fst (poll_loop per_pipe T 0 ds) then
+         let '(l, q) := release_all (ws e) (eq e) in wait_core false (mkE (st e) (closed e) l q (got e))
+       else (Timeout, mkE DEFAULT (closed e) (ws e) (eq e) (got e)).
